@@ -189,6 +189,25 @@ def slice_value(ip, st, cont, lo, hi):
     raise X.Unanalysable('slice of %r' % (cont,))
 
 
+@S('core::slice::<impl [T]>::split_first', 'core::slice::<impl [T]>::first', 'core::slice::<impl [T]>::split_last', 'core::slice::<impl [T]>::last')
+def s_split_first(ip, st, fr, name, args, c, site):
+    """first / split_first / last / split_last of a slice: None for an empty one, else the element (and the rest)"""
+    r, cont = container_ref(ip, st, args[0])
+    n = ip.len_of(st, cont)
+    which = name.rsplit('::', 1)[1]
+
+    def k(ip, s2, f2, a2):
+        r2, cont2 = container_ref(ip, s2, a2[0])
+        n2 = ip.len_of(s2, cont2)
+        at = I(0) if 'first' in which else T.mk_sub(n2, I(1))
+        el = X.Ref(r2.cell, r2.path + (('i', at),), False)
+        if which in ('first', 'last'):
+            return some(el)
+        rest = slice_value(ip, s2, cont2, I(1), n2) if which == 'split_first' else slice_value(ip, s2, cont2, I(0), T.mk_sub(n2, I(1)))
+        return some(X.Tup([el, ref_to(rest)]))
+    return [([T.mk_cmp('eq', n, I(0))], lambda *a: none()), ([T.mk_cmp('lt', I(0), n)], k)]
+
+
 @S('<std::vec::Vec<T, A> as std::ops::Index<I>>::index', 'core::slice::index::<impl std::ops::Index<I> for [T]>::index',
    '<std::vec::Vec<T, A> as std::ops::IndexMut<I>>::index_mut', 'core::slice::index::<impl std::ops::IndexMut<I> for [T]>::index_mut',
    'std::array::<impl std::ops::Index<I> for [T; N]>::index', 'std::array::<impl std::ops::IndexMut<I> for [T; N]>::index_mut')
